@@ -121,7 +121,7 @@ impl Parallelism {
         OP: FnOnce() -> R + Send,
         R: Send,
     {
-        match self.thread_pools.as_ref().and_then(|tps| tps.get(idx % tps.len())) {
+        match self.thread_pools.as_ref().filter(|tps| !tps.is_empty()).and_then(|tps| tps.get(idx % tps.len())) {
             Some(thread_pool) => thread_pool.execute(op),
             _ => op(),
         }
